@@ -18,7 +18,7 @@ from ..facts import AnalysisError
 from ..sym import enum_members
 from ..terms import const, contains, show, strip_sites, subterms
 from ..util import InlineOnly, NoInline, P, Scan, calls_to, engine, loc, param_at
-from .derived import cache_coherence
+from .derived import cache_coherence, lifecycle_owner
 from .C10 import TIMING_VALUATIONS, sleep_arg, timing_leaf
 
 SUBS = "sd.ServiceSubscriber"
@@ -38,6 +38,9 @@ def check(run, prog, tier):
     scan = Scan(prog)
     # "the eventgroups currently requested": nothing may answer from a stale copy of the requested set
     cache_coherence(run, prog, "M6", [SUBS])
+    # alive / task describe the current start()..stop() generation: nothing that runs when a generation ends overwrites them
+    with run.part("M7 generation state"):
+        lifecycle_owner(run, prog, scan, "M7", SUBS)
     slots = Slots(prog, scan)
     m = {n: prog.lookup_method(SUBS, n) for n in ("subscribe_eventgroup", "stop_subscribe_eventgroup", "stop", "start", "_subscribe",
                                                   "_send_subscribe", "_send_start_subscribe", "_send_stop_subscribe", "_group_entries")}
